@@ -9,8 +9,8 @@ ECANCELED = 125
 READ_LENS = [0, 1, 5, 64, 700, 5000, 20000, -1]
 WRITE_LENS = [0, 1, 10, 100, 3000, 20000, 70000, 9]
 CHUNKS = [1, 3, 17, 100, 512, 4096, 20000, 60000]
-HW = [0, 0, 1, 7, 64, 1024, 4096]
-LW = [0, 0, 1, 16, 512]
+LW = [0, 0, 1, 16, 512, 5000, 6000, 12288]
+HW_NORMAL = [0, 0, 64, 1024, 4096, 6000, 10000, 12289]
 
 
 class IOProgram(sc.SProgram):
@@ -73,6 +73,11 @@ class Grammar(qc.QGrammar):
         P.cfg["inject"] = [0, 0, 50, 200, 500][h[22] % 5]       # short counts / EINTR injected into the library's read/write calls on the channel fds
         if P.cfg["inject"]:
             P.features.add("fault-injection")
+        # I/O chunk size (library tuning SPI _dispatch_iocntl): default 1 MiB, or 1/2/4 pages so that transfers of a few kB cross chunk boundaries
+        P.cfg["chunkpages"] = [0, 1, 1, 2, 4][h[21] % 5]
+        P.cfg["maxreqs"] = [0, 0, 1, 2][(h[21] >> 4) % 4]
+        if P.cfg["chunkpages"]:
+            P.features.add("small-io-chunk")
         nch = 1 + h[11] % 3
         big = tier != "quick"
         for c in range(nch):
@@ -86,7 +91,7 @@ class Grammar(qc.QGrammar):
                 d = dict(type=1, transport=2, dir=0)
             # tiny high-water marks (1, 7 bytes) multiply the number of handler invocations: such channels carry little data so the event log stays bounded
             tiny = (b2 & 1) == 1
-            d.update(lw=LW[(b >> 3) % 5], hw=[1, 7][(b2 >> 1) % 2] if tiny else [0, 0, 64, 1024, 4096][(b2 >> 1) % 5], interval=[0, 0, 0, 200][(b2 >> 4) % 4], pipesz=[0, 4096][(b2 >> 6) % 2],
+            d.update(lw=LW[(b >> 3) % (5 if tiny else 8)], hw=[1, 7][(b2 >> 1) % 2] if tiny else HW_NORMAL[(b2 >> 1) % 8], interval=[0, 0, 0, 200][(b2 >> 4) % 4], pipesz=[0, 4096][(b2 >> 6) % 2],
                      file_len=([0, 1, 100, 700, 2000] if tiny else [0, 1, 100, 5000, 70000])[(b >> 5) % 5] if shape >= 4 else 0, tiny=tiny)
             if d["lw"] and d["hw"] and d["lw"] > d["hw"]:
                 d["lw"] = d["hw"]
@@ -146,8 +151,8 @@ class Grammar(qc.QGrammar):
         if kind == "barrier":
             return P.op(ctx, "barrier", a=ch, b=(b % 4) * 100, chan=ch, thread=ctx)
         if kind == "setwater":
-            lw = LW[b % 5]
-            hw = [0, 1, 7][c % 3] if d["tiny"] else [0, 64, 1024, 4096][c % 4]
+            lw = LW[b % (5 if d["tiny"] else 8)]
+            hw = [0, 1, 7][c % 3] if d["tiny"] else [0, 64, 1024, 4096, 6000, 10000][c % 6]
             if lw and hw and lw > hw:
                 lw = hw
             # the library keeps low <= high: raising the low-water mark above the high-water mark raises the latter with it
